@@ -254,10 +254,37 @@ fn block_differing_in_one_field() {
     witness("built_block");
 }
 
+/// found missing by seed C20j: the components plugged into the builder have with_* steps of their own;
+/// a WasmKeeper given an address generator and a checksum generator keeps both, in either order
+struct FixedChecksum;
+impl cw_multi_test::ChecksumGenerator for FixedChecksum {
+    fn checksum(&self, _creator: &Addr, _code_id: u64) -> cosmwasm_std::Checksum {
+        cosmwasm_std::Checksum::from([0xC5u8; 32])
+    }
+}
+fn wasm_keeper_steps_in_either_order() {
+    let order = choose(2);
+    let keeper: WasmKeeper<Empty, Empty> = if order == 0 {
+        WasmKeeper::new().with_address_generator(FixedAddr).with_checksum_generator(FixedChecksum)
+    } else {
+        WasmKeeper::new().with_checksum_generator(FixedChecksum).with_address_generator(FixedAddr)
+    };
+    let mut app = AppBuilder::new().with_api(MockApiBech32::new("juno")).with_wasm(keeper).build(|_, _, _| {});
+    let user = app.api().addr_make("user");
+    let code = app.store_code(crate::sc::contract());
+    let a = app.instantiate_contract(code, user.clone(), &crate::sc::Script::new(), &[], "k", None);
+    let want = cosmwasm_std::Api::addr_humanize(app.api(), &cosmwasm_std::CanonicalAddr::from(vec![0xAB; 20])).ok();
+    check_native("supplied_address_generator_is_used", a.as_ref().ok() == want.as_ref(), || format!("order {}: {:?} vs {:?}", order, a, want));
+    let cs = app.wrap().query_wasm_code_info(code).map(|c| c.checksum.as_slice().to_vec());
+    check_native("supplied_checksum_generator_is_used", cs.as_ref().ok() == Some(&vec![0xC5u8; 32]), || format!("order {}: {:?}", order, cs));
+    witness("built_keeper");
+}
+
 pub fn scenarios(_tier: &str) -> Vec<Scenario> {
     vec![
         Scenario::new("all_eleven_steps_three_orders", &["built_full"], full_orders),
         Scenario::new("single_steps_and_defaults", &["built_single"], single_steps),
         Scenario::new("supplied_block_differing_from_the_default_in_one_field", &["built_block"], block_differing_in_one_field),
+        Scenario::new("wasm_keeper_with_both_generators_in_either_order", &["built_keeper"], wasm_keeper_steps_in_either_order),
     ]
 }
